@@ -200,3 +200,28 @@ package lastgersync
 //@   ensures[accepted-only-with-the-roots-l1-index] result == nil ==> gerLookupsOK == old(gerLookupsOK) + 1
 //@   ensures[one-injection-event-for-the-log] result == nil ==> len(b.Events) == 1 && typeIs(b.Events[0], *Event) && cast(b.Events[0], *Event) != nil && cast(b.Events[0], *Event).GEREvent != nil && cast(b.Events[0], *Event).GERInfo == nil
 //@   ensures[the-injection-names-the-logs-root-and-its-l1-index] result == nil ==> !cast(b.Events[0], *Event).GEREvent.IsRemove && cast(b.Events[0], *Event).GEREvent.BlockNum == b.Num && cast(b.Events[0], *Event).GEREvent.GlobalExitRoot == hashOf(parsedInsert.NewGlobalExitRoot) && cast(b.Events[0], *Event).GEREvent.L1InfoTreeIndex == l1IndexOfGER(hashOf(parsedInsert.NewGlobalExitRoot))
+
+// ---- FEP mode (C16): which of the candidate roots (L1 info leaves in index order) is reported for a block - the last
+// one of them that the L2 GER manager holds (non-zero entry); when it holds none the block is left as it was. A failing
+// contract call is retried, never read as "not injected".
+// assumed (A4): common.Big0 is the number zero; BigToHash(0) is the value of the package variable aggkitcommon.ZeroHash
+//@ extern (*math/big.Int).Cmp@lastgersync.(*downloaderFEP).populateGreatestInjectedGER (x, y)
+//@   requires y != nil
+//@   modifies nothing
+//@   ensures result == ite(0 < bigval(y), 0 - 1, ite(0 > bigval(y), 1, 0))
+//@ extern github.com/ethereum/go-ethereum/common.BigToHash@lastgersync.(*downloaderFEP).populateGreatestInjectedGER (b)
+//@   requires b != nil
+//@   modifies nothing
+//@   ensures bigval(b) == 0 ==> result == aggkitcommon.ZeroHash
+//@ func (d *downloaderFEP) populateGreatestInjectedGER
+//@   props C16
+//@   requires d != nil && d.l2GERManager != nil && d.rh != nil && b != nil && forall(k, 0, len(gerInfos), gerInfos[k] != nil)
+//@   modifies b.Events
+//@   ensures[none-injected-keeps-the-block] forall(k, 0, len(gerInfos), l2GerValue(gerInfos[k].GlobalExitRoot) == 0) ==> b.Events == old(b.Events)
+//@   ensures[the-last-injected-candidate-is-reported] forall(k, 0, len(gerInfos), (l2GerValue(gerInfos[k].GlobalExitRoot) != 0 && forall(j, k + 1, len(gerInfos), l2GerValue(gerInfos[j].GlobalExitRoot) == 0)) ==> len(b.Events) == 1 && typeIs(b.Events[0], *Event) && cast(b.Events[0], *Event) != nil && cast(b.Events[0], *Event).GERInfo == gerInfos[k] && cast(b.Events[0], *Event).GEREvent == nil)
+//@   loop 0 invariant d != nil && d.l2GERManager != nil && d.rh != nil && b != nil && 0 <= rangeindex + 1 && rangeindex + 1 <= len(gerInfos)
+//@   loop 0 invariant forall(k, 0, rangeindex + 1, l2GerValue(gerInfos[k].GlobalExitRoot) == 0) ==> b.Events == old(b.Events)
+//@   loop 0 invariant forall(k, 0, rangeindex + 1, (l2GerValue(gerInfos[k].GlobalExitRoot) != 0 && forall(j, k + 1, rangeindex + 1, l2GerValue(gerInfos[j].GlobalExitRoot) == 0)) ==> len(b.Events) == 1 && typeIs(b.Events[0], *Event) && cast(b.Events[0], *Event) != nil && cast(b.Events[0], *Event).GERInfo == gerInfos[k] && cast(b.Events[0], *Event).GEREvent == nil)
+//@   loop 1 invariant d != nil && d.l2GERManager != nil && d.rh != nil && b != nil && 0 <= rangeindex + 1 && rangeindex + 1 < len(gerInfos) && gerInfo == gerInfos[rangeindex + 1]
+//@   loop 1 invariant forall(k, 0, rangeindex + 1, l2GerValue(gerInfos[k].GlobalExitRoot) == 0) ==> b.Events == old(b.Events)
+//@   loop 1 invariant forall(k, 0, rangeindex + 1, (l2GerValue(gerInfos[k].GlobalExitRoot) != 0 && forall(j, k + 1, rangeindex + 1, l2GerValue(gerInfos[j].GlobalExitRoot) == 0)) ==> len(b.Events) == 1 && typeIs(b.Events[0], *Event) && cast(b.Events[0], *Event) != nil && cast(b.Events[0], *Event).GERInfo == gerInfos[k] && cast(b.Events[0], *Event).GEREvent == nil)
